@@ -720,6 +720,16 @@ impl Prop for C20 {
         if c.hash_seed % 6 != 4 {
             return None;
         }
+        if c.hash_seed % 12 == 4 {
+            // a close relative: the same messages (hence the same digests) at the same path, under other annotations
+            let mut s = c.clone();
+            let mut r = Rng::new(c.hash_seed ^ 0x51B1_1B15);
+            for l in &mut s.layers {
+                l.ann = gen_ann(&mut r, l.kind);
+            }
+            s.foreign = 0;
+            return Some(s);
+        }
         Some(self.gen(&mut Rng::new(c.hash_seed ^ 0x51B1_1B15), Tier::Quick, 0))
     }
 
